@@ -1435,6 +1435,13 @@ func (vx *Vaxis) openTty(tgts []*os.File) error {
 	go func() {
 		defer func() {
 			if err := recover(); err != nil {
+				// Close waits for the parser to stop, and the parser
+				// can't stop while it has sequences nobody reads: we
+				// were the reader
+				go func() {
+					for range vx.parser.Next() {
+					}
+				}()
 				vx.Close()
 				panic(err)
 			}
@@ -1453,6 +1460,13 @@ func (vx *Vaxis) openTty(tgts []*os.File) error {
 				atomicStore(&vx.resize, true)
 				vx.PostEventBlocking(Redraw{})
 			case <-vx.chSigKill:
+				// Close waits for the parser to stop, and the parser
+				// can't stop while it has sequences nobody reads: we
+				// are the reader
+				go func() {
+					for range vx.parser.Next() {
+					}
+				}()
 				vx.Close()
 				return
 			}
